@@ -300,7 +300,13 @@ func ruleValidate(rulePrefix string) func(p *Prog, r *Result) {
 				if pa.End != "return" {
 					return false, "unexpected end " + pa.End
 				}
-				bad := longEnough(pa) == 1 && isDollar(pa) == 1 && isLower(pa) == 1
+				le := longEnough(pa)
+				if le == 0 && guardPol(pa, "truth", mCall("unicode.IsLower", mResOf(0, decode)), nil) == 1 {
+					// the second rune was decoded from the rest of the string: an empty rest decodes to RuneError, which is
+					// not lower case, so "lower case" already says there is a second rune
+					le = 1
+				}
+				bad := le == 1 && isDollar(pa) == 1 && isLower(pa) == 1
 				if bad {
 					if wraps(lastResult(pa), "ErrInvalidDirective") {
 						return true, ""
